@@ -48,27 +48,29 @@ class Prior():
 
         """
         if key is None:
-            self.keys.append('x_{}'.format(len(self.keys)))
+            key = 'x_{}'.format(len(self.keys))
         elif not isinstance(key, str):
             raise TypeError("Keyword argument 'key' must be a string.")
-        elif key in self.keys:
-            raise ValueError("Key '{}' already in key list.".format(key))
-        else:
-            self.keys.append(key)
 
+        if key in self.keys:
+            raise ValueError("Key '{}' already in key list.".format(key))
+
+        # Validate the distribution before changing the prior.
         if isinstance(dist, tuple):
-            self.dists.append(uniform(loc=dist[0], scale=dist[1] - dist[0]))
+            dist = uniform(loc=dist[0], scale=dist[1] - dist[0])
         elif isinstance(dist, numbers.Number) or hasattr(dist, 'isf'):
-            self.dists.append(dist)
+            pass
         elif isinstance(dist, str):
-            if dist not in self.keys or dist == str(key):
+            if dist not in self.keys:
                 raise ValueError('Key {} not defined previously.'.format(dist))
             while isinstance(self.dists[self.keys.index(dist)], str):
                 dist = self.dists[self.keys.index(dist)]
-            self.dists.append(dist)
         else:
             raise TypeError("Keyword argument 'dist' does not have the " +
                             "correct type")
+
+        self.keys.append(key)
+        self.dists.append(dist)
 
     def dimensionality(self):
         """Determine the number of free model parameters.
